@@ -180,7 +180,12 @@ def gen_source(items, stub):
 
 def cargo_build(d):
     env = dict(os.environ, CARGO_NET_OFFLINE="true", RUST_BACKTRACE="0")
-    r = subprocess.run(["cargo", "build", "--offline", "--message-format=json"], cwd=d, env=env, capture_output=True, text=True)
+    try:
+        r = subprocess.run(["cargo", "build", "--offline", "--message-format=json"], cwd=d, env=env, capture_output=True, text=True,
+                           timeout=1500)
+    except subprocess.TimeoutExpired:
+        raise ToolError("the probe crate did not compile within 25 minutes: the uint! macro does not terminate on one of the "
+                        "literals (the normal build takes seconds) -- not attributed to a token")
     err_lines = set()
     other_errors = []
     for line in r.stdout.split("\n"):
